@@ -53,7 +53,7 @@ type Atom struct {
 	K       int    `json:"k"`
 	Name    string `json:"name,omitempty"`
 	Variant int    `json:"variant,omitempty"`
-	Wrap    string `json:"wrap,omitempty"` // "", "try", "if", "for": the K lines sit inside such a block; widening w4: "while", "catch", "finally", "else", "sync", "switch", "lambda"
+	Wrap    string `json:"wrap,omitempty"`  // "", "try", "if", "for": the K lines sit inside such a block; widening w4: "while", "catch", "finally", "else", "sync", "switch", "lambda"
 	Split   bool   `json:"split,omitempty"` // widening w4: the argument list continues on the next line (the call starts on the first)
 }
 
@@ -1007,7 +1007,8 @@ func checkCLI(c Case) pbt.Verdict {
 	}
 	var result []tbs.TestBadSmell
 	if c.Sort {
-		// grouped by type: the same findings, each under the key of its type
+		// the grouped report holds the same findings (the statement does not speak about the
+		// grouping itself, so the keys are not judged)
 		var grouped map[string][]tbs.TestBadSmell
 		if err := json.Unmarshal(data, &grouped); err != nil {
 			return fail(fmt.Sprintf("tbs.json (-s) is not a map of type to findings: %v\n%s", err, tail(string(data), 600)))
@@ -1018,12 +1019,7 @@ func checkCLI(c Case) pbt.Verdict {
 		}
 		sort.Strings(types)
 		for _, typ := range types {
-			for _, r := range grouped[typ] {
-				if r.Type != typ {
-					return fail(fmt.Sprintf("tbs.json (-s): the group %q holds a finding of type %q", typ, r.Type))
-				}
-				result = append(result, r)
-			}
+			result = append(result, grouped[typ]...)
 		}
 	} else if err := json.Unmarshal(data, &result); err != nil {
 		return fail(fmt.Sprintf("tbs.json is not a list of findings: %v\n%s", err, tail(string(data), 600)))
@@ -1078,10 +1074,13 @@ func classify(c Case, truths []fileTruth, root string, mode string) pbt.Verdict 
 					kinds[a.Kind] = true
 				}
 			}
-			ms = append(ms, fmt.Sprintf("%s/%s/%v[%s]", m.Spec.Kind, m.Spec.Annot, m.Spec.SameLine, strings.Join(seq, ",")))
+			ms = append(ms, fmt.Sprintf("%s/%s/%v/%d.%d[%s]", m.Spec.Kind, m.Spec.Annot, m.Spec.SameLine, m.Spec.Extra, m.Spec.ExtraPos, strings.Join(seq, ",")))
 			if t.Role == "prod" {
 				if len(kinds) > 0 {
 					labels["production_class_with_atoms"] = true
+				}
+				if m.Spec.Kind == "test" && len(kinds) > 0 {
+					labels["production_class_with_annotated_method"] = true
 				}
 				continue
 			}
@@ -1092,7 +1091,90 @@ func classify(c Case, truths []fileTruth, root string, mode string) pbt.Verdict 
 				if m.Spec.Annot != "" && len(kinds) > 0 {
 					labels["lifecycle_method_with_atoms"] = true
 				}
+				if m.Spec.Extra >= plainExtraFrom && len(kinds) > 0 {
+					labels["look_alike_annotation_on_plain_method"] = true
+				}
 				continue
+			}
+			if m.Spec.Extra > 0 {
+				labels["test_with_third_annotation"] = true
+			}
+			byName := map[string]int{}
+			for _, a := range m.Spec.Atoms {
+				if isAssertAtom(a) {
+					byName[a.Name]++
+				}
+				if a.Split && a.Kind != "fill" && a.Kind != "create" && a.Kind != "helper" {
+					labels["call_over_two_lines"] = true
+				}
+				switch a.Wrap {
+				case "while", "catch", "finally", "else", "sync", "switch", "lambda":
+					if a.Kind != "fill" {
+						labels["atom_inside_"+a.Wrap] = true
+					}
+				}
+				if a.Kind == "neutral" && a.Variant%14 >= 8 {
+					labels["neutral_look_alike_w4"] = true
+				}
+				if a.Kind == "helper" && a.Variant%3 == 2 {
+					labels["helper_called_via_class_name"] = true
+				}
+			}
+			for _, n := range byName {
+				if n >= 2 {
+					labels["same_assertion_in_two_places"] = true
+				}
+			}
+			directAssert := false
+			for _, cl := range m.Calls {
+				directAssert = directAssert || cl.Assertion
+			}
+			if !directAssert {
+				// which of the called helpers assert (in call order)
+				var pattern []bool
+				for _, cl := range m.Calls {
+					if cl.Helper != "" {
+						asserts := false
+						for _, hc := range helperCalls(t, cl.Helper) {
+							asserts = asserts || hc.Assertion
+						}
+						pattern = append(pattern, asserts)
+					}
+				}
+				if len(pattern) >= 2 && !pattern[0] && pattern[len(pattern)-1] {
+					labels["assertion_only_in_a_later_helper"] = true
+				}
+				if len(pattern) >= 2 && pattern[0] && !pattern[len(pattern)-1] {
+					labels["assertion_only_in_an_earlier_helper"] = true
+				}
+			}
+			distinctAsserts, totalAsserts, maxAsserts := 0, 0, 0
+			perAssert := map[string]int{}
+			for _, cl := range m.Calls {
+				if cl.Assertion {
+					perAssert[cl.Name]++
+				}
+			}
+			for _, n := range perAssert {
+				distinctAsserts++
+				totalAsserts += n
+				if n > maxAsserts {
+					maxAsserts = n
+				}
+			}
+			if distinctAsserts >= 2 && totalAsserts >= 5 && maxAsserts < 5 {
+				labels["five_assertions_none_five_times"] = true
+			}
+			perOther := map[string]int{}
+			for _, cl := range m.Calls {
+				if !cl.Assertion && !cl.Creation {
+					perOther[cl.Name]++
+				}
+			}
+			for _, n := range perOther {
+				if n >= 5 && maxAsserts < 5 {
+					labels["non_assertion_five_times"] = true
+				}
 			}
 			if len(kinds) >= 2 {
 				v.NonTrivial = true
@@ -1161,11 +1243,48 @@ func classify(c Case, truths []fileTruth, root string, mode string) pbt.Verdict 
 		if t.Role == "test" && strings.HasSuffix(t.Class, "Tests") {
 			labels["name_ends_with_Tests"] = true
 		}
+		for _, o := range truths {
+			if o.Rel != t.Rel && o.Class == t.Class {
+				labels["same_class_name_twice"] = true
+			}
+		}
+		for i := 1; i < len(t.Methods); i++ {
+			if t.Role == "test" && t.Methods[i].Spec.Kind == "test" && len(t.Methods[i].Spec.Atoms) > 0 {
+				for j := 0; j < i; j++ {
+					if t.Methods[j].Spec.Kind == "test" && fmt.Sprint(t.Methods[j].Spec.Atoms) == fmt.Sprint(t.Methods[i].Spec.Atoms) {
+						labels["two_tests_with_the_same_body"] = true
+					}
+				}
+			}
+		}
 		sort.Strings(ms)
 		canon = append(canon, t.Role+":"+strings.Join(ms, ";"))
 	}
 	if len(truths) > 1 {
 		labels["files>=2"] = true
+	}
+	for _, f := range c.Files {
+		if f.ClassAnnot >= 2 && f.Role == "test" {
+			labels["class_level_ignore"] = true
+		}
+		if f.ClassAnnot == 1 || f.Extends {
+			labels["class_header_variant"] = true
+		}
+		if f.CRLF {
+			labels["crlf_line_ends"] = true
+		}
+		if f.Role == "prod" && (strings.Contains(strings.ToLower(f.Name), "test") || strings.Contains(f.SubDir, "test")) {
+			labels["production_file_with_test_in_its_path"] = true
+		}
+	}
+	if c.Repeat {
+		labels["pipeline_twice_in_one_process"] = true
+	}
+	if c.Sort {
+		labels["cli_sorted_report"] = true
+	}
+	if c.DirStyle != 0 {
+		labels[fmt.Sprintf("cli_dir_style_%d", c.DirStyle)] = true
 	}
 	for k := range labels {
 		v.Classes = append(v.Classes, k)
@@ -1183,8 +1302,8 @@ var (
 	subjects     = []string{"Order", "Invoice", "Ledger", "Parser", "Router", "Cache", "Account", "Planner"}
 	helperNames  = []string{"prepareFixture", "runScenario", "exerciseAll", "loadDefaults"}
 	assert1Names = []string{"assertTrue", "assertNotNull", "assertFalse", "assertNull", "assertThat", "verify",
-		"shouldBeOpen", "checkState", "mayNotBeAccessedByAnyLayer", "isConsistent", "specifiedBy"}
-	assert2Names  = []string{"assertEquals", "assertSame", "assertArrayEquals"}
+		"shouldBeOpen", "checkState", "mayNotBeAccessedByAnyLayer", "isConsistent", "specifiedBy", "assertThrows", "verifyNoMoreInteractions"}
+	assert2Names  = []string{"assertEquals", "assertSame", "assertArrayEquals", "assertNotEquals", "assertIterableEquals", "assertNotSame"}
 	neutral2Names = []string{"put", "max", "equals", "register"}
 	helperAsserts = []string{"assertNotNull", "assertTrue", "assertEquals"}
 )
@@ -1194,8 +1313,8 @@ func rare(t *rapid.T, label string, n int) bool {
 }
 
 func genWrap(t *rapid.T) string {
-	if rare(t, "wrapped", 4) {
-		return rapid.SampledFrom([]string{"try", "if", "for"}).Draw(t, "wrap")
+	if rare(t, "wrapped", 3) {
+		return rapid.SampledFrom([]string{"try", "if", "for", "while", "catch", "finally", "else", "sync", "switch", "lambda"}).Draw(t, "wrap")
 	}
 	return ""
 }
@@ -1218,11 +1337,13 @@ func genMultiplicity(t *rapid.T, label string, around bool) int {
 // making the expected findings of its callers depend on a reading the statement leaves open.
 func genAtom(t *rapid.T, helpers []string, inHelper bool) Atom {
 	if inHelper {
-		switch rapid.IntRange(0, 3).Draw(t, "helperAtom") {
+		switch rapid.IntRange(0, 4).Draw(t, "helperAtom") {
 		case 0:
-			return Atom{Kind: "neutral", K: rapid.IntRange(1, 2).Draw(t, "k"), Variant: rapid.SampledFrom([]int{0, 6, 1}).Draw(t, "variant")}
+			return Atom{Kind: "neutral", K: rapid.IntRange(1, 2).Draw(t, "k"), Variant: rapid.SampledFrom([]int{0, 6, 1, 8, 9, 12}).Draw(t, "variant")}
 		case 1:
 			return Atom{Kind: "fill", K: 1}
+		case 4:
+			return Atom{Kind: "create", K: 1} // a creation, possibly the last thing the helper does
 		}
 		name := rapid.SampledFrom(helperAsserts).Draw(t, "helperAssert")
 		if name == "assertEquals" {
@@ -1237,6 +1358,7 @@ func genAtom(t *rapid.T, helpers []string, inHelper bool) Atom {
 		a.Name = rapid.SampledFrom(assert1Names).Draw(t, "assertName")
 		a.K = genMultiplicity(t, "k", true)
 		a.Wrap = genWrap(t)
+		a.Split = rare(t, "split", 5)
 	case "diff2":
 		if rare(t, "neutral2", 3) {
 			a.Name = rapid.SampledFrom(neutral2Names).Draw(t, "name2")
@@ -1245,6 +1367,7 @@ func genAtom(t *rapid.T, helpers []string, inHelper bool) Atom {
 		}
 		a.K = genMultiplicity(t, "k", true)
 		a.Variant = rapid.IntRange(0, 7).Draw(t, "variant")
+		a.Split = rare(t, "split", 5)
 	case "same2":
 		if rare(t, "neutral2", 2) {
 			a.Name = rapid.SampledFrom(neutral2Names).Draw(t, "name2")
@@ -1254,19 +1377,25 @@ func genAtom(t *rapid.T, helpers []string, inHelper bool) Atom {
 		a.K = genMultiplicity(t, "k", true)
 		a.Variant = rapid.IntRange(0, 6).Draw(t, "variant")
 		a.Wrap = genWrap(t)
+		a.Split = rare(t, "split", 5)
 	case "print":
 		a.K = genMultiplicity(t, "k", false)
 		a.Variant = rapid.IntRange(0, 3).Draw(t, "variant")
 		a.Wrap = genWrap(t)
+		a.Split = rare(t, "split", 3)
 	case "sleep":
 		a.K = genMultiplicity(t, "k", false)
 		if rapid.Bool().Draw(t, "sleepInTry") {
 			a.Wrap = "try"
+		} else {
+			a.Wrap = genWrap(t)
 		}
+		a.Split = rare(t, "split", 3)
 	case "neutral":
 		a.K = genMultiplicity(t, "k", true)
-		a.Variant = rapid.IntRange(0, 7).Draw(t, "variant")
+		a.Variant = rapid.IntRange(0, 13).Draw(t, "variant")
 		a.Wrap = genWrap(t)
+		a.Split = rare(t, "split", 5)
 	case "create":
 		a.K = rapid.IntRange(1, 2).Draw(t, "k")
 	case "fill":
@@ -1277,8 +1406,8 @@ func genAtom(t *rapid.T, helpers []string, inHelper bool) Atom {
 		}
 		a.Name = rapid.SampledFrom(helpers).Draw(t, "helper")
 		a.K = rapid.IntRange(1, 2).Draw(t, "k")
-		if rare(t, "viaThis", 3) {
-			a.Variant = 1
+		if rare(t, "qualified", 2) {
+			a.Variant = rapid.IntRange(1, 2).Draw(t, "qualifier") // this.helper() / OwnClass.helper()
 		}
 	}
 	return a
@@ -1371,7 +1500,7 @@ func fixTestAtoms(atoms []Atom, helperAtoms map[string][]Atom) []Atom {
 	return out
 }
 
-func genTestMethod(t *rapid.T, idx int, helpers []string, helperAtoms map[string][]Atom, helperCallCount map[string]int) Method {
+func genTestMethod(t *rapid.T, idx int, helpers []string, helperAtoms map[string][]Atom, helperCallCount map[string]int, prev *Method) Method {
 	m := Method{Kind: "test", Name: fmt.Sprintf("scenario%d", idx)}
 	m.Annot = rapid.SampledFrom([]string{"T", "T", "T", "I", "TI", "IT"}).Draw(t, "annot")
 	if rare(t, "annotArgs", 3) {
@@ -1380,10 +1509,45 @@ func genTestMethod(t *rapid.T, idx int, helpers []string, helperAtoms map[string
 	m.SameLine = rare(t, "sameLine", 3)
 	m.Mods = rapid.SampledFrom([]string{"public", "public", "public", ""}).Draw(t, "mods")
 	m.Throws = rare(t, "throws", 2)
-	n := rapid.IntRange(0, 4).Draw(t, "atoms")
+	if rare(t, "extraAnnotation", 3) {
+		m.Extra = rapid.IntRange(1, plainExtraFrom-1).Draw(t, "extra")
+		m.ExtraPos = rapid.IntRange(0, 2).Draw(t, "extraPos")
+	}
 	atoms := []Atom{}
-	for i := 0; i < n; i++ {
-		atoms = append(atoms, genAtom(t, helpers, false))
+	if prev != nil && rare(t, "cloneOfPrevious", 4) {
+		// a copy of the previous test method of the class under another name
+		atoms = append(atoms, prev.Atoms...)
+	} else if len(helpers) >= 2 && rare(t, "throughSeveralHelpers", 4) {
+		// nothing but calls of two or three helpers (and perhaps a neutral call): whether the
+		// test asserts depends on all of them
+		order := rapid.Permutation(helpers).Draw(t, "helperOrder")
+		for _, h := range order {
+			atoms = append(atoms, Atom{Kind: "helper", K: 1, Name: h, Variant: rapid.IntRange(0, 2).Draw(t, "qualifier")})
+		}
+		if rapid.Bool().Draw(t, "neutralToo") {
+			pos := rapid.IntRange(0, len(atoms)).Draw(t, "neutralPos")
+			atoms = append(atoms[:pos], append([]Atom{{Kind: "neutral", K: 1, Variant: rapid.IntRange(0, 13).Draw(t, "variant")}}, atoms[pos:]...)...)
+		}
+	} else {
+		n := rapid.IntRange(0, 4).Draw(t, "atoms")
+		for i := 0; i < n; i++ {
+			atoms = append(atoms, genAtom(t, helpers, false))
+		}
+		if len(atoms) > 0 && rare(t, "sameAssertionAgain", 3) {
+			// the same assertion once more in another place of the body, the total around the limit
+			for _, a := range atoms {
+				if isAssertAtom(a) && a.Name != "assertThrows" {
+					total := rapid.SampledFrom([]int{5, 4, 6}).Draw(t, "assertionTotal")
+					more := Atom{Kind: a.Kind, Name: a.Name, Variant: a.Variant, K: total - a.K}
+					if more.K < 1 {
+						more.K = 1
+					}
+					pos := rapid.IntRange(0, len(atoms)).Draw(t, "againPos")
+					atoms = append(atoms[:pos], append([]Atom{more}, atoms[pos:]...)...)
+					break
+				}
+			}
+		}
 	}
 	atoms = fixTestAtoms(atoms, helperAtoms)
 	direct, total := callsOf(atoms, helperCallCount)
@@ -1422,36 +1586,84 @@ func genFile(t *rapid.T, c *Case, role string, idx int, used map[string]bool) Fi
 		if c.Layout == "maven" && rare(t, "otherSuffix", 2) {
 			suffix = rapid.SampledFrom([]string{"IT", "Spec", "Cases", "TestCase"}).Draw(t, "suffix")
 		}
-	} else if rare(t, "prodNamedTest", 4) {
-		subject = "Test" + subject // TestOrder.java, Testing... : "Test" at the front is not a test file name
-		suffix = "Support"
+	} else if rare(t, "prodNamedTest", 2) {
+		// names with "Test" / "test" in them that are not test file names
+		switch rapid.IntRange(0, 4).Draw(t, "prodNameKind") {
+		case 0:
+			subject = "Test" + subject // TestOrderSupport.java: "Test" at the front
+			suffix = "Support"
+		case 1:
+			suffix = "Tester"
+		case 2:
+			suffix = "TestBase"
+		case 3:
+			suffix = "Testing"
+		default:
+			subject = "Contest" + subject
+		}
 	}
 	f.Name = subject + suffix
-	for n := 2; used[f.Name]; n++ {
-		f.Name = fmt.Sprintf("%s%d%s", subject, n, suffix)
+	twin := false
+	if role == "test" && idx > 0 && c.Files[0].Role == "test" && rare(t, "sameNameElsewhere", 4) {
+		// the name of the first test class once more, in another package / directory
+		f.Name = c.Files[0].Name
+		twin = true
 	}
-	used[f.Name] = true
 	if c.Layout == "maven" {
-		f.Package = "com.acme." + strings.ToLower(strings.TrimPrefix(subject, "Test"))
+		f.Package = "com.acme." + strings.ToLower(strings.TrimPrefix(strings.TrimPrefix(subject, "Test"), "Contest"))
 		if rare(t, "shortPackage", 4) {
 			f.Package = "shop"
 		}
+		if twin {
+			f.Package = "com.acme.other"
+		}
 	} else {
 		f.SubDir = rapid.SampledFrom([]string{"", "", "tests", "unit/core"}).Draw(t, "subDir")
+		if role == "prod" && rare(t, "prodDirNamedTest", 2) {
+			// directories that resemble src/test/java without being it
+			f.SubDir = rapid.SampledFrom([]string{"test", "src/testing/java", "src/test/resources", "latest", "src/test/javax"}).Draw(t, "prodSubDir")
+		}
+		if twin {
+			f.SubDir = "other"
+		}
 		if rare(t, "hasPackage", 1) {
 			f.Package = "com.acme"
 		}
+		if twin {
+			// another package too: two classes with the same fully-qualified name in one tree
+			// are not generated (whose helper `the same class` means is open then)
+			f.Package = "com.acme.other"
+		}
 	}
+	// one file per path and one class per fully-qualified name; the same simple class name may
+	// occur again in another package and directory
+	for n := 2; used[relPath(*c, f)] || used["class "+f.Package+"."+f.Name]; n++ {
+		f.Name = fmt.Sprintf("%s%d%s", subject, n, suffix)
+	}
+	used[relPath(*c, f)] = true
+	used["class "+f.Package+"."+f.Name] = true
 	f.ImportStyle = rapid.IntRange(0, 2).Draw(t, "importStyle")
 	f.Indent = rapid.IntRange(0, 2).Draw(t, "indent")
 	f.Header = rapid.IntRange(0, 2).Draw(t, "header")
 	f.BlankLines = rapid.IntRange(0, 1).Draw(t, "blank")
 	f.Field = rare(t, "fieldCreation", 2)
 	f.Constructor = role == "test" && rare(t, "constructor", 4)
+	f.CRLF = rare(t, "crlf", 5)
+	if rare(t, "classAnnotation", 3) {
+		f.ClassAnnot = rapid.IntRange(1, 3).Draw(t, "classAnnot")
+	}
+	f.Extends = rare(t, "extends", 3)
 
 	if role == "prod" {
 		n := rapid.IntRange(0, 3).Draw(t, "prodMethods")
 		for i := 0; i < n; i++ {
+			if rare(t, "annotatedInProd", 2) {
+				// @Test / @Ignore on a method of a file that is no test file: still no finding
+				m := genTestMethod(t, i, nil, nil, nil, nil)
+				m.Name = fmt.Sprintf("selfCheck%d", i)
+				f.Methods = append(f.Methods, m)
+				continue
+			}
 			m := Method{Kind: "plain", Name: fmt.Sprintf("operation%d", i), Mods: "public"}
 			k := rapid.IntRange(0, 3).Draw(t, "prodAtoms")
 			for j := 0; j < k; j++ {
@@ -1468,10 +1680,10 @@ func genFile(t *rapid.T, c *Case, role string, idx int, used map[string]bool) Fi
 	helperCallCount := map[string]int{}
 	var helpers []string
 	var methods []Method
-	nh := rapid.IntRange(0, 2).Draw(t, "helpers")
+	nh := rapid.IntRange(0, 3).Draw(t, "helpers")
 	for i := 0; i < nh; i++ {
 		name := helperNames[i]
-		m := Method{Kind: "helper", Name: name, Mods: rapid.SampledFrom([]string{"private", "protected", ""}).Draw(t, "helperMods")}
+		m := Method{Kind: "helper", Name: name, Mods: rapid.SampledFrom([]string{"private", "protected", "", "private static", "static"}).Draw(t, "helperMods")}
 		k := rapid.IntRange(0, 3).Draw(t, "helperAtoms")
 		m.Atoms = []Atom{}
 		for j := 0; j < k; j++ {
@@ -1483,8 +1695,11 @@ func genFile(t *rapid.T, c *Case, role string, idx int, used map[string]bool) Fi
 		methods = append(methods, m)
 	}
 	nt := rapid.IntRange(1, 4).Draw(t, "tests")
+	var prev *Method
 	for i := 0; i < nt; i++ {
-		methods = append(methods, genTestMethod(t, i, helpers, helperAtoms, helperCallCount))
+		m := genTestMethod(t, i, helpers, helperAtoms, helperCallCount, prev)
+		methods = append(methods, m)
+		prev = &m
 	}
 	np := rapid.IntRange(0, 2).Draw(t, "plainMethods")
 	for i := 0; i < np; i++ {
@@ -1492,6 +1707,12 @@ func genFile(t *rapid.T, c *Case, role string, idx int, used map[string]bool) Fi
 		if rare(t, "lifecycle", 1) {
 			m.Annot = rapid.SampledFrom([]string{"B", "A", "BC"}).Draw(t, "lifecycleAnnot")
 			m.Mods = "public"
+			m.SameLine = rare(t, "sameLine", 3)
+		}
+		if rare(t, "lookAlikeAnnotation", 1) {
+			// an annotation whose name resembles @Test / @Ignore makes no test method
+			m.Extra = rapid.IntRange(1, len(extraAnnotations)-1).Draw(t, "extra")
+			m.ExtraPos = rapid.IntRange(0, 1).Draw(t, "extraPos")
 			m.SameLine = rare(t, "sameLine", 3)
 		}
 		k := rapid.IntRange(0, 3).Draw(t, "plainAtoms")
@@ -1526,22 +1747,29 @@ func genCase(t *rapid.T) Case {
 	for i := 0; i < nProd; i++ {
 		c.Files = append(c.Files, genFile(t, &c, "prod", i, used))
 	}
+	c.Repeat = rare(t, "repeat", 3)
 	return c
 }
 
 func genCLICase(t *rapid.T) Case {
 	c := genCase(t)
+	c.Repeat = false
 	c.RelDir = rapid.Bool().Draw(t, "relDir")
+	if rare(t, "otherDirStyle", 2) {
+		c.DirStyle = rapid.IntRange(1, 3).Draw(t, "dirStyle")
+	}
+	c.Sort = rare(t, "sortFlag", 2)
 	return c
 }
 
 func init() {
 	pbt.SetProperty("C11")
-	pbt.Describe("Trees of 1-3 JUnit-style test classes and 0-2 production classes, flat (FooTest.java / FooTests.java next to production files, optionally in sub-directories) or Maven style ([module/]src/test/java/<package dirs>/ with class names that need not end in Test, production under src/main/java). Test methods are assembled from evidence atoms with multiplicities: System.out.println/print/printf, Thread.sleep (also inside try/if/for blocks), two-argument calls with identical / different argument texts (assertion and non-assertion callees), one assertion repeated k times (k around the limit: 3,4,5,6), chains assertThat(x).isEqualTo(y) and verify(m).run(), calls of same-class helpers (whose bodies hold assertions and neutral calls), neutral calls that resemble the patterns (System.err.println, TimeUnit.SECONDS.sleep, logger.print, three-argument call with two equal arguments), creations first/last, plain statements; @Test / @Ignore alone or together in both orders, with or without arguments, on their own lines or on the declaration line; static-import, explicit-static-import and qualified assertion styles. Un-annotated methods and production classes carry the same atoms. A line-tracking printer gives the ground-truth lines. Oracle: the multiset of findings by the statement's rules, each compared by type and file, plus the call's line for RedundantPrintTest/SleepyTest, plus the owning test method (reported line anywhere between its first annotation and its closing brace) for EmptyTest/RedundantAssertionTest/UnknownTest/DuplicateAssertTest; no finding may name a non-test file; a crash is a violation. Entry points: the cmd/tbs.go pipeline through the API, and `coca tbs -p DIR` (tbs.json). Non-trivial = some test method with >= 2 atom kinds, or a multiplicity 4/5/6, or both annotations; distinct = layout + per-file atom sequences.",
-		"assertion names are clear positives (assert*, verify, isEqualTo); other callee names avoid the tool's prefixes (assert, should, check, maynotbe, is, spec, verify)",
-		"called helpers contain only assertions, neutral calls and plain statements (prints, sleeps and identical-argument calls inside a called helper are not generated: the statement does not say whose finding they would be); helper inlining is one level",
+	pbt.Describe("Trees of 1-3 JUnit-style test classes and 0-2 production classes, flat (FooTest.java / FooTests.java next to production files, optionally in sub-directories) or Maven style ([module/]src/test/java/<package dirs>/ with class names that need not end in Test, production under src/main/java); the name of a test class may recur in another package and directory. Test methods are assembled from evidence atoms with multiplicities: System.out.println/print/printf, Thread.sleep (also inside try/catch/finally/if/else/for/while/switch/synchronized blocks and lambda bodies, also with the argument list continued on the next line), two-argument calls with identical / different argument texts (assertion and non-assertion callees), one assertion repeated k times (k around the limit: 3,4,5,6; in one run or in two places of the body), several different assertions that only together reach the limit, a non-assertion repeated five times, chains assertThat(x).isEqualTo(y) and verify(m).run(), assertThrows around a lambda, calls of same-class helpers written helper(), this.helper() or OwnClass.helper() (whose bodies hold assertions, neutral calls and creations; also tests that do nothing but call two or three helpers), neutral calls that resemble the patterns (System.err.println, System.out.format/flush, TimeUnit.SECONDS.sleep, WorkerThread.sleep, logger.print, dispatch/inspect whose names contain is/spec, three-argument calls with two equal arguments, a call named like a helper on another object), creations first/last, plain statements, comments and string literals quoting the patterns; a test method may be a copy of the previous one; @Test / @Ignore alone or together in both orders, with or without arguments, on their own lines or on the declaration line, optionally with a third annotation (@Deprecated, @SuppressWarnings, @Category, @DisplayName) before, between or after them; static-import, explicit-static-import and qualified assertion styles; class-level @RunWith / @Ignore / extends; LF or CRLF. Un-annotated methods (also with lifecycle annotations or look-alikes such as @ParameterizedTest, @TestFactory, @IgnoreIf, @Ignored, @TestOnly), production classes (also named TestXSupport, XTester, XTestBase, ContestX or lying in test/, src/testing/java, src/test/resources, src/test/javax) carry the same atoms, production classes also methods annotated @Test/@Ignore. A line-tracking printer gives the ground-truth lines. Oracle: the multiset of findings by the statement's rules, each compared by type and file, plus the call's line for RedundantPrintTest/SleepyTest, plus the owning test method (reported line anywhere between its first annotation and its closing brace) for EmptyTest/RedundantAssertionTest/UnknownTest/DuplicateAssertTest; no finding may name a non-test file; a crash is a violation. Entry points: the cmd/tbs.go pipeline through the API, with TbsApp.AnalysisPath called a second time on the same class nodes and, in one case of four, the whole pipeline run again in the same process without reset (every result judged); and `coca tbs [-p DIR] [-s]` (tbs.json as a list or grouped by type; DIR absolute, relative, ./DIR, DIR/ or the default . from inside; the printed count and table, where present, must agree with tbs.json). Non-trivial = some test method with >= 2 atom kinds, or a multiplicity 4/5/6, or both annotations; distinct = layout + per-file atom sequences.",
+		"assertion names are clear positives (assert*, verify*, isEqualTo, one name per other prefix of the tool's list); other callee names do not start with the tool's prefixes (assert, should, check, maynotbe, is, spec, verify)",
+		"called helpers contain only assertions, neutral calls, creations and plain statements (prints, sleeps and identical-argument calls inside a called helper are not generated: the statement does not say whose finding they would be); helper inlining is one level; helpers are not overloaded; two classes with the same fully-qualified name in one tree are not generated",
 		"an assertion name never reaches 5 occurrences only through helper bodies; a method annotated @Ignore alone always makes a call; creations appear only next to at least one method call",
-		"each call is written on one line; annotations other than @Test/@Ignore, nested types, inherited helpers and JUnit 5 @Disabled are not generated",
+		"a call split over two lines starts (callee name and opening parenthesis) on its first line; method references (System.out::println), nested types, inherited helpers and JUnit 5 @Disabled are not generated",
+		"a method counts as a test method by @Test/@Ignore alone (statement: 'Methods without @Test/@Ignore ... never produce a finding'), so look-alike annotations and an @Ignore on the class call for nothing",
 		"known finding (feature "+oneCallFeature+"): @Test methods with exactly one call (after helper inlining) are generated only with VERIF_NO_EXCLUDE=1 or while the finding is not listed as known")
 	pbt.Register("tree", 1000, 2000, genCase, checkAPI)
 	pbt.Register("cli", 60, 150, genCLICase, checkCLI)
